@@ -82,7 +82,7 @@ Inductive outcome (A : Type) := Done (a : A) | Fail (e : perr) | Unsupported.
 Arguments Done {A}. Arguments Fail {A}. Arguments Unsupported {A}.
 Definition obind {A B} (r : outcome A) (f : A -> outcome B) : outcome B :=
   match r with Done a => f a | Fail e => Fail e | Unsupported => Unsupported end.
-Notation "x <= r ;;; k" := (obind r (fun x => k)) (at level 61, r at next level, right associativity).
+Notation "x <<- r ;;; k" := (obind r (fun x => k)) (at level 61, r at next level, right associativity).
 Definition of_pres {A} (r : pres A) : outcome A := match r with POk a => Done a | PErr e => Fail e end.
 Definition of_res {A} (r : res A) : outcome A := match r with Ok a => Done a | Err e => Fail (PRaw e) end.
 Definition size_o (it : item) : outcome Z :=
@@ -102,16 +102,16 @@ Definition reg_env : envt :=
    position advances by the NEW total size; labels located after the item move down by old - new *)
 Definition rule_t := line -> item -> Z -> envt -> outcome (list item).
 Fixpoint sizes (l : list item) : outcome Z :=
-  match l with [] => Done 0 | it :: r => a <= size_o it ;;; b <= sizes r ;;; Done (a + b) end.
+  match l with [] => Done 0 | it :: r => a <<- size_o it ;;; b <<- sizes r ;;; Done (a + b) end.
 Fixpoint gpass (rule : rule_t) (its : list litem) (pos : Z) (labels : envt) (acc : list litem)
   : outcome (list litem * envt) :=
   match its with
   | [] => Done (rev acc, labels)
   | (l, ILabel n) :: r => gpass rule r pos labels ((l, ILabel n) :: acc)
   | (l, it) :: r =>
-      old <= size_o it ;;;
-      rs <= rule l it pos labels ;;;
-      new <= sizes rs ;;;
+      old <<- size_o it ;;;
+      rs <<- rule l it pos labels ;;;
+      new <<- sizes rs ;;;
       let d := old - new in
       gpass rule r (pos + new) (if d >? 0 then shrink_after pos d labels else labels)
             (rev_append (map (fun x => (l, x)) rs) acc)
@@ -127,7 +127,7 @@ Fixpoint resolve_constants_lr (its : list litem) (consts : envt) (acc : list lit
           if mem_str name reg_names then Fail (PAsm l)
           else if is_int name then Fail (PAsm l)
           else
-            v <= of_pres (eeval relocate_hi relocate_lo l None (fun _ => false) (chain_get consts reg_env) e) ;;;
+            v <<- of_pres (eeval relocate_hi relocate_lo l None (fun _ => false) (chain_get consts reg_env) e) ;;;
             resolve_constants_lr r (dict_set name v consts) acc
       | _ => Fail (PAsm l)
       end
@@ -141,7 +141,7 @@ Fixpoint resolve_labels (its : list litem) (pos : Z) (labels : envt) : outcome e
   match its with
   | [] => Done labels
   | (_, ILabel name) :: r => resolve_labels r pos (dict_set name pos labels)
-  | (_, it) :: r => n <= size_o it ;;; resolve_labels r (pos + n) labels
+  | (_, it) :: r => n <<- size_o it ;;; resolve_labels r (pos + n) labels
   end.
 
 (* ---- resolve_register_aliases ------------------------------------------------------------------------- *)
@@ -232,16 +232,30 @@ Definition perr_of_pred (l : line) (e : exn) : perr :=
 Definition eval_consts (l : line) (pos : Z) (consts : envt) (e : expr) : pres Z :=
   eeval relocate_hi relocate_lo l (Some pos)
         (fun k => match assoc_str k consts with Some _ => true | None => false end) (fun k => assoc_str k consts) e.
-(* the stability guard in front of the rule selection: Some err = propagate, None+false = skip compression *)
-Definition imm_unstable (l : line) (pos : Z) (consts : envt) (fs : list (string * fval)) : outcome bool :=
+(* is_position_relative / is_settled of asm.py *)
+Fixpoint is_position_relative (e : expr) : bool :=
+  match e with
+  | EOff _ => true
+  | EPos _ e' | EHi e' | ELo e' => is_position_relative e'
+  | EArith _ | EArithInt _ => false
+  end.
+Definition is_settled (l : line) (pos : Z) (consts : envt) (e : expr) : outcome bool :=
+  if is_position_relative e then Done false
+  else match eval_consts l pos consts e with
+       | POk _ => Done true
+       | PErr (PAsm _) => Done false
+       | PErr e' => Fail e'
+       end.
+Definition in_consts (consts : envt) (r : string) : bool :=
+  match assoc_str r consts with Some _ => true | None => false end.
+(* the guard in front of the rule selection: Fail = propagate, Done true = skip compression *)
+Definition imm_unstable (l : line) (pos : Z) (consts : envt) (cls : string) (fs : list (string * fval)) : outcome bool :=
   match field_get "imm" fs with
-  | Some (FExpr (EOff _)) => Done false
   | Some (FExpr e) =>
-      match eval_consts l pos consts e with
-      | POk _ => Done false
-      | PErr (PAsm _) => Done true
-      | PErr e' => Fail e'
-      end
+      let jump := String.eqb cls "BTypeInstruction" || String.eqb cls "JTypeInstruction" in
+      let to_label := match e with EOff r => negb (in_consts consts r) | _ => false end in
+      if jump && to_label then Done false
+      else (st <<- is_settled l pos consts e ;;; Done (negb st))
   | Some _ => Fail (PRaw AttributeError)
   | None => Done false
   end.
@@ -249,7 +263,7 @@ Definition imm_unstable (l : line) (pos : Z) (consts : envt) (fs : list (string 
 Definition compress_rule (consts : envt) : rule_t := fun l it pos labels =>
   match it with
   | IInstr cls name fs c =>
-      u <= imm_unstable l pos consts fs ;;;
+      u <<- imm_unstable l pos consts cls fs ;;;
       if u then Done [it] else
       match select_rule criteria (view_of l pos consts labels name fs) with
       | Err e => Fail (perr_of_pred l e)
@@ -287,7 +301,7 @@ Definition near_imm (e : expr) : expr := e.
 
 Inductive pexp :=
 | One (it : item)                                   (* a single 4-byte instruction *)
-| Choice (e : expr) (lo hi : Z) (near : item) (far1 far2 : item).   (* li / call / tail *)
+| Choice (e : expr) (target : option string) (lo hi : Z) (near : item) (far1 far2 : item).   (* li (None) / call / tail (Some reference) *)
 
 Definition unpack_err {A} : outcome A := Fail (PRaw ValueError).
 Definition expand_pseudo (l : line) (name : string) (args : list string) (pimm : pres expr) : outcome pexp :=
@@ -296,9 +310,9 @@ Definition expand_pseudo (l : line) (name : string) (args : list string) (pimm :
   else if s "li"%string then
     match args with
     | rd :: _ =>
-        imm <= of_pres pimm ;;;
-        Done (Choice imm (-2048) 2047 (mkI "addi" (St rd) (St "x0") (ELo imm) false)
-                     (mkU "lui" (St rd) (EHi imm)) (mkI "addi" (St rd) (St rd) (ELo imm) false))
+        imm <<- of_pres pimm ;;;
+        Done (Choice imm None (-2048) 2047 (mkI "addi" (St rd) (St "x0") (ELo imm) false)
+                     (mkU "lui" (St rd) (EHi imm)) (mkI "addi" (St rd) (St rd) (ELo imm) true))
     | [] => unpack_err
     end
   else if s "mv"%string then
@@ -346,13 +360,13 @@ Definition expand_pseudo (l : line) (name : string) (args : list string) (pimm :
   else if s "ret"%string then Done (One (mkI "jalr" (St "x0") (St "x1") zero_e false))
   else if s "call"%string then
     match args with
-    | [ref] => Done (Choice (EOff ref) (-1048576) 1048575 (mkJ "jal" (St "x1") (near_imm (EOff ref)))
+    | [ref] => Done (Choice (EOff ref) (Some ref) (-1048576) 1048575 (mkJ "jal" (St "x1") (near_imm (EOff ref)))
                             (mkU "auipc" (St "x1") (EHi (EOff ref))) (mkI "jalr" (St "x1") (St "x1") (ELo (EOff ref)) true))
     | _ => unpack_err
     end
   else if s "tail"%string then
     match args with
-    | [ref] => Done (Choice (EOff ref) (-1048576) 1048575 (mkJ "jal" (St "x0") (near_imm (EOff ref)))
+    | [ref] => Done (Choice (EOff ref) (Some ref) (-1048576) 1048575 (mkJ "jal" (St "x0") (near_imm (EOff ref)))
                             (mkU "auipc" (St "x6") (EHi (EOff ref))) (mkI "jalr" (St "x0") (St "x6") (ELo (EOff ref)) true))
     | _ => unpack_err
     end
@@ -362,18 +376,18 @@ Definition expand_pseudo (l : line) (name : string) (args : list string) (pimm :
 Definition pseudo_rule (consts : envt) : rule_t := fun l it pos labels =>
   match it with
   | IPseudo name args pimm =>
-      px <= expand_pseudo l name args pimm ;;;
+      px <<- expand_pseudo l name args pimm ;;;
       match px with
       | One it' => Done [it']
-      | Choice e lo hi near far1 far2 =>
-          v <= of_pres (eeval relocate_hi relocate_lo l (Some pos)
+      | Choice e target lo hi near far1 far2 =>
+          v <<- of_pres (eeval relocate_hi relocate_lo l (Some pos)
                               (fun k => match chain_get consts labels k with Some _ => true | None => false end)
                               (chain_get consts labels) e) ;;;
           let v := c_int32 v in
-          stable <= (if String.eqb name "li"
-                     then match eval_consts l pos consts e with
-                          | POk _ => Done true | PErr (PAsm _) => Done false | PErr e' => Fail e' end
-                     else Done true) ;;;
+          stable <<- (match target with
+                     | None => is_settled l pos consts e                 (* li *)
+                     | Some r => Done (negb (in_consts consts r))       (* call / tail: only the distance to a label *)
+                     end) ;;;
           if stable && (v >=? lo) && (v <=? hi) then Done [near] else Done [far1; far2]
       end
   | _ => Done [it]
@@ -412,20 +426,20 @@ Fixpoint resolve_immediates (its : list litem) (pos : Z) (consts labels : envt) 
       match field_get "imm" fs with
       | Some v =>
           let back := match field_get "is_auipc_jump" fs with Some (FBool true) => 4 | _ => 0 end in
-          imm <= imm_of l (pos - back) consts labels v ;;;
+          imm <<- imm_of l (pos - back) consts labels v ;;;
           resolve_immediates r (pos + (if c then 2 else 4)) consts labels
                              ((l, IInstr cls name (field_set "imm" (FInt imm) fs) c) :: acc)
       | None => resolve_immediates r (pos + (if c then 2 else 4)) consts labels ((l, IInstr cls name fs c) :: acc)
       end
   | (l, IPack f v) :: r =>
-      imm <= imm_of l pos consts labels v ;;;
-      n <= size_o (IPack f v) ;;;
+      imm <<- imm_of l pos consts labels v ;;;
+      n <<- size_o (IPack f v) ;;;
       resolve_immediates r (pos + n) consts labels ((l, IPack f (FInt imm)) :: acc)
   | (l, IShort nm v) :: r =>
-      imm <= imm_of l pos consts labels v ;;;
-      n <= size_o (IShort nm v) ;;;
+      imm <<- imm_of l pos consts labels v ;;;
+      n <<- size_o (IShort nm v) ;;;
       resolve_immediates r (pos + n) consts labels ((l, IShort nm (FInt imm)) :: acc)
-  | (l, it) :: r => n <= size_o it ;;; resolve_immediates r (pos + n) consts labels ((l, it) :: acc)
+  | (l, it) :: r => n <<- size_o it ;;; resolve_immediates r (pos + n) consts labels ((l, it) :: acc)
   end.
 
 (* ---- resolve_instructions ----------------------------------------------------------------------------- *)
@@ -461,7 +475,7 @@ Fixpoint resolve_instructions (its : list litem) (acc : list litem) : outcome (l
   match its with
   | [] => Done (rev acc)
   | (l, IInstr cls name fs c) :: r =>
-      bs <= encode_item l cls name fs c ;;; resolve_instructions r ((l, IBlob bs) :: acc)
+      bs <<- encode_item l cls name fs c ;;; resolve_instructions r ((l, IBlob bs) :: acc)
   | x :: r => resolve_instructions r (x :: acc)
   end.
 
@@ -478,7 +492,7 @@ Fixpoint seq_bytes (fmtc : string) (vals : list string) : outcome (list Z) :=
       | Some z =>
           let f := String.append "<" (if z <? 0 then lower fmtc else fmtc) in
           match struct_pack f z with
-          | Some (Ok bs) => rest <= seq_bytes fmtc r ;;; Done (app bs rest)
+          | Some (Ok bs) => rest <<- seq_bytes fmtc r ;;; Done (app bs rest)
           | Some (Err e) => Fail (PRaw e)
           | None => Unsupported
           end
@@ -494,7 +508,7 @@ Fixpoint resolve_sequences (its : list litem) (acc : list litem) : outcome (list
   | (l, ISeq name vals) :: r =>
       if negb (all_ints vals) then Fail (PRaw ValueError)
       else match seq_fmt name with
-           | Some f => bs <= seq_bytes f vals ;;; resolve_sequences r ((l, IBlob bs) :: acc)
+           | Some f => bs <<- seq_bytes f vals ;;; resolve_sequences r ((l, IBlob bs) :: acc)
            | None => Fail (PRaw KeyError)
            end
   | x :: r => resolve_sequences r (x :: acc)
@@ -541,10 +555,10 @@ Fixpoint resolve_include_bytes (its : list litem) (acc : list litem) : outcome (
 Fixpoint resolve_blobs (its : list litem) : outcome (list (line * chunk)) :=
   match its with
   | [] => Done []
-  | (l, IBlob bs) :: r => rest <= resolve_blobs r ;;; Done ((l, CBytes bs) :: rest)
-  | (l, IZeros n) :: r => rest <= resolve_blobs r ;;; Done ((l, CZeros n) :: rest)
-  | (l, IFill b n) :: r => rest <= resolve_blobs r ;;; Done ((l, CFill b n) :: rest)
-  | (l, IIncBytes p sz _) :: r => rest <= resolve_blobs r ;;; Done ((l, CFile p sz) :: rest)
+  | (l, IBlob bs) :: r => rest <<- resolve_blobs r ;;; Done ((l, CBytes bs) :: rest)
+  | (l, IZeros n) :: r => rest <<- resolve_blobs r ;;; Done ((l, CZeros n) :: rest)
+  | (l, IFill b n) :: r => rest <<- resolve_blobs r ;;; Done ((l, CFill b n) :: rest)
+  | (l, IIncBytes p sz _) :: r => rest <<- resolve_blobs r ;;; Done ((l, CFile p sz) :: rest)
   | (l, ILabel _) :: r => resolve_blobs r             (* ghost marker *)
   | _ :: r => Fail (PRaw ValueError)
   end.
@@ -552,25 +566,25 @@ Fixpoint resolve_blobs (its : list litem) : outcome (list (line * chunk)) :=
 (* ---- assemble (items -> chunks, constants, labels) ---------------------------------------------------- *)
 Record result := { r_chunks : list (line * chunk); r_consts : envt; r_labels : envt }.
 Definition assemble_items (its : list litem) (consts0 labels0 : envt) (compress : bool) : outcome result :=
-  p <= resolve_constants_lr its consts0 [] ;;;
+  p <<- resolve_constants_lr its consts0 [] ;;;
   let '(its, consts) := p in
-  labels <= resolve_labels its 0 labels0 ;;;
+  labels <<- resolve_labels its 0 labels0 ;;;
   let its := resolve_register_aliases its consts in
-  p <= (if compress then transform_compressible its consts labels else Done (its, labels)) ;;;
+  p <<- (if compress then transform_compressible its consts labels else Done (its, labels)) ;;;
   let '(its, labels) := p in
-  p <= transform_pseudo its consts labels ;;;
+  p <<- transform_pseudo its consts labels ;;;
   let '(its, labels) := p in
   let its := resolve_register_aliases its consts in
-  p <= (if compress then transform_compressible its consts labels else Done (its, labels)) ;;;
+  p <<- (if compress then transform_compressible its consts labels else Done (its, labels)) ;;;
   let '(its, labels) := p in
-  p <= resolve_aligns its labels ;;;
+  p <<- resolve_aligns its labels ;;;
   let '(its, labels) := p in
-  its <= resolve_immediates its 0 consts labels [] ;;;
-  its <= resolve_instructions its [] ;;;
+  its <<- resolve_immediates its 0 consts labels [] ;;;
+  its <<- resolve_instructions its [] ;;;
   let its := resolve_strings its in
-  its <= resolve_sequences its [] ;;;
-  its <= transform_shorthand its [] ;;;
-  its <= resolve_packs its [] ;;;
-  its <= resolve_include_bytes its [] ;;;
-  chunks <= resolve_blobs its ;;;
+  its <<- resolve_sequences its [] ;;;
+  its <<- transform_shorthand its [] ;;;
+  its <<- resolve_packs its [] ;;;
+  its <<- resolve_include_bytes its [] ;;;
+  chunks <<- resolve_blobs its ;;;
   Done {| r_chunks := chunks; r_consts := consts; r_labels := labels |}.
